@@ -240,5 +240,14 @@ for _k, _d in {
         'piecewise and constants as children of math': '<?xml version="1.0"?>' + _M % (_C % ('<math xmlns="http://www.w3.org/1998/Math/MathML"><piecewise><otherwise><ci>x</ci></otherwise></piecewise><pi/><true/>' + _EQ + '</math>')),
         'diff as a child of math': '<?xml version="1.0"?>' + _M % (_C % ('<math xmlns="http://www.w3.org/1998/Math/MathML"><apply><diff/><bvar><ci>x</ci></bvar><ci>y</ci></apply></math>')),
         'nested math': '<?xml version="1.0"?>' + _M % (_C % ('<math xmlns="http://www.w3.org/1998/Math/MathML"><math>' + _EQ + '</math></math>')),
+        # comments inside token elements (the validator accepts them), qualifiers of diff with odd contents
+        'comment before the identifier of a ci': '<?xml version="1.0"?>' + _M % (_C % ('<math xmlns="http://www.w3.org/1998/Math/MathML"><apply><eq/><ci><!--c-->y</ci><cn cellml:units="dimensionless">1</cn></apply></math>')),
+        'comment inside a ci and after it': '<?xml version="1.0"?>' + _M % (_C % ('<math xmlns="http://www.w3.org/1998/Math/MathML"><apply><eq/><ci>y<!--c--></ci><apply><plus/><ci><!--a-->x<!--b--></ci><cn cellml:units="dimensionless">1</cn></apply></apply></math>')),
+        'comment inside a cn used as an exponent': '<?xml version="1.0"?>' + _M % (_C % ('<math xmlns="http://www.w3.org/1998/Math/MathML"><apply><eq/><ci>y</ci><apply><power/><ci>x</ci><cn cellml:units="dimensionless"><!--c-->2</cn></apply></apply></math>')),
+        'comments inside an e-notation cn': '<?xml version="1.0"?>' + _M % (_C % ('<math xmlns="http://www.w3.org/1998/Math/MathML"><apply><eq/><ci>y</ci><cn cellml:units="dimensionless" type="e-notation"><!--a-->1<!--b--><sep/><!--c-->2<!--d--></cn></apply></math>')),
+        'diff of an expression, degree 2': '<?xml version="1.0"?>' + _M % (_C % ('<math xmlns="http://www.w3.org/1998/Math/MathML"><apply><eq/><apply><diff/><bvar><ci>x</ci><degree><cn cellml:units="dimensionless">2</cn></degree></bvar><apply><plus/><ci>y</ci><cn cellml:units="dimensionless">1</cn></apply></apply><cn cellml:units="dimensionless">1</cn></apply></math>')),
+        'diff of an expression, degree 1': '<?xml version="1.0"?>' + _M % (_C % ('<math xmlns="http://www.w3.org/1998/Math/MathML"><apply><eq/><apply><diff/><bvar><ci>x</ci><degree><cn cellml:units="dimensionless">1</cn></degree></bvar><apply><plus/><ci>y</ci><cn cellml:units="dimensionless">1</cn></apply></apply><cn cellml:units="dimensionless">1</cn></apply></math>')),
+        'blank ci in the degree of a bvar': '<?xml version="1.0"?>' + _M % (_C % ('<math xmlns="http://www.w3.org/1998/Math/MathML"><apply><eq/><apply><diff/><bvar><ci>x</ci><degree><ci> </ci></degree></bvar><ci>y</ci></apply><cn cellml:units="dimensionless">1</cn></apply></math>')),
+        'cn without exponent in the degree of a bvar': '<?xml version="1.0"?>' + _M % (_C % ('<math xmlns="http://www.w3.org/1998/Math/MathML"><apply><eq/><apply><diff/><bvar><ci>x</ci><degree><cn cellml:units="dimensionless" type="e-notation">1<sep/></cn></degree></bvar><ci>y</ci></apply><cn cellml:units="dimensionless">1</cn></apply></math>')),
         }.items():
     FIXED.append((_d.encode(), 'odd nodes: ' + _k))
